@@ -30,7 +30,7 @@ RULE = ("cases = way of leaving {DISCONNECT, FIN, RST, FIN/RST after every byte 
 ASSUMPTIONS = ["CLIENT_CLOSED is matched to the departed connection by the client address/port it carries",
                "for a client that closed with FIN, a write by the manager before it services the EOF may succeed or fail",
                "harness clients are drained; every surviving connection is writable"]
-REQUIRE = {"departures_while_not_writable": 40, "departures": 150, "client_closed_matched": 150, "reconnects_checked": 60, "probe_deliveries_checked": 150,
+REQUIRE = {"ack_copies_at_surviving_logger_checked": 3000, "departures_while_not_writable": 40, "departures": 150, "client_closed_matched": 150, "reconnects_checked": 60, "probe_deliveries_checked": 150,
            "timing_pid_tables_checked": 100}
 CASE_TIMEOUT = 60
 T, T2 = 1234, 4321
@@ -104,7 +104,11 @@ def dep_steps(L, idn, name, d, tcode):
 def build(c):
     tcode = bool(c.get("tc"))
     steps = [["open", "P"], ["hello", "P", {"mod_id": 10}], ["open", "M"], ["hello", "M", {"mod_id": 11}],
-             ["open", "S"], ["hello", "S", {"mod_id": 12, "name": "surv"}], ["drain"],
+             ["open", "S"], ["hello", "S", {"mod_id": 12, "name": "surv"}],
+             # a logger among the survivors: it is owed a copy of every acknowledgement, also of the one during whose
+             # fan-out a departing logger is found dead
+             ["open", "G"], ["hello", "G", {"mod_id": 13, "logger": 1}], ["drain"],
+             ["open", "G2"], ["hello", "G2", {"mod_id": 14, "logger": 1}], ["open", "G3"], ["hello", "G3", {"mod_id": 15, "logger": 1}], ["drain"],
              ["sub", "M", W.MT_CLIENT_CLOSED], ["sub", "M", W.MT_CLIENT_INFO], ["sub", "M", W.MT_FAILED_MESSAGE],
              ["sub", "S", T], ["drain"]]
     if c.get("tm"):
@@ -192,6 +196,11 @@ def gen_cases(tier, seed):
         for w in ("rst", "write", "fin", "disc", "frame_rst"):
             for lvl in (1, 2):
                 add({"d1": {"stage": s, "way": w, "off": 20}, "trigger": "hello", "loudlevel": lvl})
+    # a logger found dead while the copies of somebody's acknowledgement are fanned out (several times: the order in
+    # which the manager walks its loggers is not under the harness's control)
+    for rep in range(8):
+        for w in ("write", "rst"):
+            add({"d1": {"stage": "logger", "way": w, "off": 20, "rep": rep}, "trigger": "ctl"})
     # the same departures by a client that is not in the round's writability snapshot (it has fallen behind)
     for s, w in singles:
         if w != "write" and not w.startswith("refused"):
@@ -343,6 +352,31 @@ def judge(sc, c, n_before):
                               "detail": f"pub {pid} type {p['t']} dest {p['dm']} round {p['round']}: {L} got {n} copies (must={p['must']})"})
             elif L not in p["may"] and n:
                 V.append({"mech": "unexpected_delivery", "detail": f"pub {pid} reached {L} (must={p['must']})"})
+    # the surviving logger's copies of the acknowledgements owed to the survivors (P, M, S, the newcomer and the reconnected ones)
+    from collections import Counter as _Cn
+    for G, gid in (("G", 13), ("G2", 14), ("G3", 15)):
+        if G not in rx:
+            continue
+        owed, g_round = _Cn(), None
+        gone = {sc.cl[L].mod_id for L in ("D", "E") if L in sc.cl}     # (ids that are used again by the reconnecting clients: left out)
+        for rec in sc.rounds:
+            for L, d, out in rec["frames"]:
+                if L == G and d["kind"].startswith("hello") and out == "ack" and g_round is None:
+                    g_round = rec["n"]
+        for rec in sc.rounds:
+            for L, d, out in rec["frames"]:
+                if L in ("D", "E", "G", "G2", "G3") or sc.cl[L].mod_id is None:
+                    continue
+                if d["kind"] in ("sub", "unsub", "pause", "resume") or (d["kind"].startswith("hello") and out == "ack"):
+                    # (what was acknowledged up to the round of the logger's own handshake may or may not have found it registered)
+                    if g_round is not None and rec["n"] > g_round and sc.cl[L].mod_id not in gone:
+                        owed[sc.cl[L].mod_id] += 1
+        seen = _Cn(f.dest_mod for f in rx[G]["frames"] if f.msg_type == W.MT_ACK and f.dest_mod != gid and f.dest_mod not in gone)
+        C["ack_copies_at_surviving_logger_checked"] = C.get("ack_copies_at_surviving_logger_checked", 0) + sum(owed.values())
+        if True:
+            if owed - seen:
+                V.append({"mech": "surviving_logger_missed_ack_copy",
+                          "detail": f"logger {G} ({gid}) is owed copies of the acknowledgements addressed to {dict(owed)}; it received copies addressed to {dict(seen)}"})
     # no failure notice may be produced by anything after the departure round
     if n_before is not None:
         later = rx["M"]["frames"][n_before:]
